@@ -725,12 +725,14 @@ impl Server {
         // Second phase: process frames without the lock
         let mut responses = Vec::new();
         let mut needs_immediate_flush = false; // Track if any command needs immediate response
+        let frames_processed_count = frames_to_process.len();
         for frame in frames_to_process {
             // Process each frame and increment command counter
             self.stats.total_commands_processed.fetch_add(1, Ordering::Relaxed);
             
             // Check for special commands that need connection access
             let mut sync_response = None;
+            let mut writes_own_replies = false;
             if let RespFrame::Array(Some(parts)) = &frame {
                 if !parts.is_empty() {
                     if let RespFrame::BulkString(Some(bytes)) = &parts[0] {
@@ -753,6 +755,7 @@ impl Server {
                             // Pub/sub commands need immediate response for proper timing coordination
                             "SUBSCRIBE" | "UNSUBSCRIBE" | "PSUBSCRIBE" | "PUNSUBSCRIBE" => {
                                 needs_immediate_flush = true;
+                                writes_own_replies = true;
                             }
                             _ => {}
                         }
@@ -768,6 +771,22 @@ impl Server {
                         }
                     }
                 }
+            }
+            
+            // Pub/sub handlers write their acknowledgements straight to the connection: the
+            // replies collected so far go out first, so replies stay in request order
+            if writes_own_replies && !responses.is_empty() {
+                let earlier = std::mem::take(&mut responses);
+                self.connections.with_connection(id, |conn| {
+                    for response in &earlier {
+                        if let RespFrame::NoResponse = response {
+                            continue;
+                        }
+                        if let Err(e) = conn.send_frame(response) {
+                            eprintln!("Send error for connection {}: {}", id, e);
+                        }
+                    }
+                });
             }
             
             let response = if let Some(sync_resp) = sync_response {
@@ -787,7 +806,6 @@ impl Server {
         }
         
         // Third phase: send responses with special handling for commands needing immediate delivery
-        let frames_processed_count = responses.len();
         let has_pending_writes = self.connections.with_connection(id, |conn| -> Result<bool> {
             // For transaction/connection integrity: Commands needing immediate response get individual flush
             // For performance: All other commands use efficient batching
